@@ -36,12 +36,17 @@ META = {
     "explanation": (
         "R1: the v2 entry regex (parsed with re._parser), the match function and the subject normalisation equal those of "
         "the installed sphinx.util.inventory. R2: in the v2 loader the ':' test dominates the split of domain:objtype, the "
-        "py:module first-wins skip, the '$' expansion and the '-'/empty -> None rule are present and every non-skipped "
-        "path stores exactly once. R3: a small kind inference (DOMAIN / OBJTYPE / NAME / DOMAIN:OBJTYPE) checks every key "
+        "py:module first-wins skip, the '$' expansion and the '-'/empty -> None rule (every other display name verbatim, "
+        "also one equal to another local such as the name) are present; the branch facts dominating the single entry "
+        "store are exactly Sphinx's skip conditions (match, ':', duplicate py:module; truthiness tests on regex groups that "
+        "cannot be empty are vacuous); the store runs at most once per line and has Sphinx's duplicate semantics (a later "
+        "entry overwrites: subscript assignment / update, not setdefault). R3: a small kind inference (DOMAIN / OBJTYPE / NAME / DOMAIN:OBJTYPE) checks every key "
         "used on the MyST- and Sphinx-format dictionaries in _load_v1, _load_v2, from_sphinx and to_sphinx. R4: every "
         "store to the reader's byte buffers is an append, a prefix drop after the prefix was consumed, or a reset after "
         "the whole buffer was consumed; consumed bytes are discarded before the next append/use; a local line buffer is "
-        "empty or consumed when the generator ends; eof is set only when a read returned b''; every read chunk is "
+        "empty or consumed when the generator ends; decode() is applied only to bytes that end at an entry or stream "
+        "boundary (prefix up to an ASCII separator, whole buffer at eof, join of all chunks) and never to a single "
+        "read/decompress chunk; eof is set only when a read returned b''; every read chunk is "
         "appended. R5: header strings, [11:] offsets, the v1 type/location templates, the substring/equality/suffix "
         "constants of the v2 loader, the line-boundary set and the '-' sentinel agree with Sphinx's loaders and between "
         "from_sphinx/to_sphinx."
@@ -261,9 +266,12 @@ class EntryLoop:
         if not _is_name(base, self.loop.target.id):
             raise Unsupported(f"{fi.fq}: regex subject does not derive from the loop variable")
         p = parent(self.call)
-        if not (isinstance(p, ast.Assign) and len(p.targets) == 1 and isinstance(p.targets[0], ast.Name)):
+        if isinstance(p, ast.NamedExpr) and isinstance(p.target, ast.Name):
+            self.mvar = p.target.id
+        elif isinstance(p, ast.Assign) and len(p.targets) == 1 and isinstance(p.targets[0], ast.Name):
+            self.mvar = p.targets[0].id
+        else:
             raise Unsupported(f"{fi.fq}: match object is not assigned to a local")
-        self.mvar = p.targets[0].id
         self.unpack = None
         for st in fi.local_nodes():
             if isinstance(st, ast.Assign) and isinstance(st.value, ast.Call) and isinstance(st.value.func, ast.Attribute) and st.value.func.attr == "groups" and _is_name(st.value.func.value, self.mvar):
@@ -277,6 +285,21 @@ class EntryLoop:
             for n in ast.walk(st):
                 if isinstance(n, ast.stmt):
                     self.body_stmts.add(n)
+
+    def group_min_width(self) -> dict[str, int]:
+        """role variable -> minimal width of its regex group."""
+        out = {}
+
+        def rec(sp):
+            for op, av in sp.data:
+                if str(op) == "SUBPATTERN":
+                    g, _, _, p = av
+                    if g is not None and 1 <= g <= len(ROLES):
+                        out[self.roles[ROLES[g - 1]]] = int(p.getwidth()[0])
+                    rec(p)
+
+        rec(self.tree)
+        return out
 
     def norm_tree(self):
         def norm(x):
@@ -342,33 +365,130 @@ def r1_regex_equals_sphinx(corpus: Corpus, rep: Report, tier: str):
 # R2 rule chain of the v2 loader
 
 
-def _objects_store(st) -> list | None:
-    """keys [domain, objtype, name] of ``X["objects"][d][o][n] = ...``."""
+def _access_chain(e):
+    """``a[k1].setdefault(k2, {})[k3]`` -> (a, [k1, k2, k3]) (subscripts and setdefault/get calls mixed)."""
+    keys = []
+    while True:
+        if isinstance(e, ast.Subscript):
+            keys.append(e.slice)
+            e = e.value
+        elif isinstance(e, ast.Call) and isinstance(e.func, ast.Attribute) and e.func.attr in ("setdefault", "get") and e.args:
+            keys.append(e.args[0])
+            e = e.func.value
+        else:
+            break
+    return e, list(reversed(keys))
+
+
+OVERWRITE, KEEP_FIRST = "a later entry replaces an earlier one", "the first entry is kept"
+
+
+def _entry_store(st, rooted: bool = True):
+    """(keys [domain, objtype, name], item expr, duplicate mode) when ``st`` puts one item into the
+    MyST-format table: subscript assignment, ``.setdefault(name, item)`` or ``.update({name: item})``."""
+    chain = item = mode = None
     if isinstance(st, ast.Assign) and len(st.targets) == 1 and isinstance(st.targets[0], ast.Subscript):
-        base, keys = _sub_chain(st.targets[0])
+        chain, item, mode = _access_chain(st.targets[0]), st.value, OVERWRITE
+    elif isinstance(st, ast.Expr) and isinstance(st.value, ast.Call) and isinstance(st.value.func, ast.Attribute):
+        c = st.value
+        if c.func.attr == "setdefault" and len(c.args) == 2 and not (isinstance(c.args[1], ast.Dict) and not c.args[1].keys):
+            base, keys = _access_chain(c.func.value)
+            chain, item, mode = (base, keys + [c.args[0]]), c.args[1], KEEP_FIRST
+        elif c.func.attr == "update" and len(c.args) == 1 and isinstance(c.args[0], ast.Dict) and len(c.args[0].keys) == 1 and c.args[0].keys[0] is not None:
+            base, keys = _access_chain(c.func.value)
+            chain, item, mode = (base, keys + [c.args[0].keys[0]]), c.args[0].values[0], OVERWRITE
+    if chain is None:
+        return None
+    base, keys = chain
+    if rooted:
         if len(keys) == 4 and _cstr(keys[0]) == "objects":
-            return keys[1:]
+            return keys[1:], item, mode
+        return None
+    return (keys[-3:], item, mode) if len(keys) >= 3 else None
+
+
+def _objects_store(st) -> list | None:
+    """keys [domain, objtype, name] of a store into ``X["objects"][d][o][n]``."""
+    r = _entry_store(st)
+    return r[0] if r is not None else None
+
+
+def _item_dict(fi: FunctionInfo, e):
+    """The dict literal an item expression denotes (directly or through one local)."""
+    if isinstance(e, ast.Dict):
+        return e
+    if isinstance(e, ast.Name):
+        defs = [n for n in fi.local_nodes() if isinstance(n, (ast.Assign, ast.AnnAssign)) and n.value is not None and any(_is_name(t, e.id) for t in (n.targets if isinstance(n, ast.Assign) else [n.target]))]
+        if len(defs) == 1 and isinstance(defs[0].value, ast.Dict):
+            return defs[0].value
     return None
 
 
-def _eval_pred(t, var: str, s: str) -> bool:
-    """Evaluate a boolean combination of tests on one string variable for the abstract value ``s``."""
+def _sphinx_store_mode(A, st):
+    """Duplicate semantics of Sphinx's entry store ``inv[type, name] = item``."""
+    if not (isinstance(st, ast.Assign) and len(st.targets) == 1 and isinstance(st.targets[0], ast.Subscript)):
+        return None
+    t = st.targets[0]
+    if isinstance(t.slice, ast.Tuple) and len(t.slice.elts) == 2 and isinstance(t.value, ast.Name):
+        si = A.sib.functions.get("_Inventory.__setitem__")
+        if si is None:
+            raise Unsupported(f"{SIB}: _Inventory.__setitem__ not found")
+        last = si.node.body[-1]
+        if isinstance(last, ast.Assign) and isinstance(last.targets[0], ast.Subscript):
+            return OVERWRITE
+        raise Unsupported(f"{SIB}: _Inventory.__setitem__ not understood")
+    if isinstance(t.value, ast.Call) and isinstance(t.value.func, ast.Attribute) and t.value.func.attr == "setdefault":
+        return OVERWRITE
+    return None
+
+
+class _Sym:
+    """Abstract display name: 'the same string as local variable <name>' (non-empty, differs from every constant)."""
+
+    def __init__(self, name: str):
+        self.name = name
+
+    def __repr__(self):
+        return f"<same as {self.name}>"
+
+    def __eq__(self, other):
+        return isinstance(other, _Sym) and other.name == self.name
+
+    def __hash__(self):
+        return hash(self.name)
+
+
+def _eval_pred(t, var: str, s) -> bool:
+    """Evaluate a boolean combination of tests on one string variable for the abstract value ``s``:
+    a sample string (which differs from the value of every other variable) or ``_Sym(v)``."""
+
+    def same(e) -> bool:  # does abstract value s equal operand e?
+        if _cstr(e) is not None:
+            return not isinstance(s, _Sym) and s == _cstr(e)
+        if isinstance(e, ast.Name) and e.id != var:
+            return isinstance(s, _Sym) and s.name == e.id
+        raise Unsupported(f"operand in a test on the display name not understood: {short(e, 40)}")
+
     if isinstance(t, ast.UnaryOp) and isinstance(t.op, ast.Not):
         return not _eval_pred(t.operand, var, s)
     if isinstance(t, ast.BoolOp):
         vals = [_eval_pred(v, var, s) for v in t.values]
         return all(vals) if isinstance(t.op, ast.And) else any(vals)
     if _is_name(t, var):
-        return bool(s)
-    if isinstance(t, ast.Compare) and len(t.ops) == 1 and _is_name(t.left, var):
-        op, r = t.ops[0], t.comparators[0]
-        if isinstance(op, (ast.Eq, ast.NotEq)) and _cstr(r) is not None:
-            return (s == _cstr(r)) == isinstance(op, ast.Eq)
-        if isinstance(op, (ast.In, ast.NotIn)) and isinstance(r, (ast.Tuple, ast.List, ast.Set)) and all(_cstr(e) is not None for e in r.elts):
-            return (s in [_cstr(e) for e in r.elts]) == isinstance(op, ast.In)
-        if isinstance(op, (ast.Is, ast.IsNot)) and isinstance(r, ast.Constant) and r.value is None:
+        return isinstance(s, _Sym) or bool(s)
+    if isinstance(t, ast.Compare) and len(t.ops) == 1:
+        op, l, r = t.ops[0], t.left, t.comparators[0]
+        if isinstance(op, (ast.Eq, ast.NotEq)) and (_is_name(l, var) or _is_name(r, var)):
+            return same(r if _is_name(l, var) else l) == isinstance(op, ast.Eq)
+        if isinstance(op, (ast.In, ast.NotIn)) and _is_name(l, var) and isinstance(r, (ast.Tuple, ast.List, ast.Set)):
+            return any(same(e) for e in r.elts) == isinstance(op, ast.In)
+        if isinstance(op, (ast.Is, ast.IsNot)) and _is_name(l, var) and isinstance(r, ast.Constant) and r.value is None:
             return isinstance(op, ast.IsNot)
     raise Unsupported(f"test on the display name not understood: {short(t, 60)}")
+
+
+def _other_names(tests, var: str) -> list[str]:
+    return sorted({n.id for t in tests for n in ast.walk(t) if isinstance(n, ast.Name) and n.id != var})
 
 
 def _is_none(e) -> bool:
@@ -379,10 +499,11 @@ def _text_outcomes(fi: FunctionInfo, value: ast.expr, store: ast.stmt, scope: se
     """What is stored as "text" for each abstract display name in ``samples`` (None or the name itself)."""
     cfg = get_cfg(fi)
     if isinstance(value, ast.IfExp):
-        names = {n.id for n in ast.walk(value.test) if isinstance(n, ast.Name)}
-        if len(names) != 1:
+        branch = [b.id for b in (value.body, value.orelse) if isinstance(b, ast.Name)]
+        if len(branch) != 1:
             raise Unsupported(f"display-name expression not understood: {short(value, 60)}")
-        var = names.pop()
+        var = branch[0]
+        samples.extend(_Sym(v) for v in _other_names([value.test], var))
         out = []
         for s in samples:
             br = value.body if _eval_pred(value.test, var, s) else value.orelse
@@ -402,11 +523,18 @@ def _text_outcomes(fi: FunctionInfo, value: ast.expr, store: ast.stmt, scope: se
             tg = st.targets if isinstance(st, ast.Assign) else [st.target]
             if not any(_is_name(n, var) and isinstance(n.ctx, ast.Store) for t in tg for n in ast.walk(t)):
                 continue
+            if isinstance(st, ast.Assign) and any(isinstance(t, (ast.Tuple, ast.List)) for t in tg):
+                continue  # the unpacking that defines the display name
             p = parent(st)
             if isinstance(st, ast.Assign) and _is_none(st.value) and isinstance(p, ast.If) and st in p.body and not p.orelse and cfg.dominates(p, store) and p in scope:
                 tests.append(p.test)
+            elif isinstance(st, ast.Assign) and isinstance(st.value, ast.IfExp) and _is_none(st.value.body) and _is_name(st.value.orelse, var) and cfg.dominates(st, store):
+                tests.append(st.value.test)  # text = None if <test> else text
+            elif isinstance(st, ast.Assign) and isinstance(st.value, ast.IfExp) and _is_none(st.value.orelse) and _is_name(st.value.body, var) and cfg.dominates(st, store):
+                tests.append(ast.UnaryOp(op=ast.Not(), operand=st.value.test))
             else:
                 raise Unsupported(f"assignment to the display name not understood: {short(st, 60)}")
+        samples.extend(_Sym(v) for v in _other_names(tests, var))
         return [None if any(_eval_pred(t, var, s) for t in tests) else s for s in samples]
     raise Unsupported(f"display-name value not understood: {short(value, 60)}")
 
@@ -448,18 +576,81 @@ def _check_type_splits(rep: Report, rid: str, fi: FunctionInfo, typevar: str, sc
     return n
 
 
+def _text_problems(samples: list, got: list) -> list[str]:
+    """'' and the sentinel must become None, every other display name must be kept."""
+    out = []
+    for i, (s, g) in enumerate(zip(samples, got)):
+        if i < 2 and g is not None:
+            out.append(f"{s!r} is kept as {g!r} instead of None")
+        if i >= 2 and g != s:
+            out.append(f"a display name {('equal to `' + s.name + '`') if isinstance(s, _Sym) else 'other than the sentinel'} is stored as {g!r}")
+    return out
+
+
+def _dup_truth(t, typevar: str, E: bool, P: bool) -> bool:
+    """Truth of a test built from ``type == "py:module"`` (E) and membership tests on the objects table (P)."""
+    if isinstance(t, ast.UnaryOp) and isinstance(t.op, ast.Not):
+        return not _dup_truth(t.operand, typevar, E, P)
+    if isinstance(t, ast.BoolOp):
+        vals = [_dup_truth(v, typevar, E, P) for v in t.values]
+        return all(vals) if isinstance(t.op, ast.And) else any(vals)
+    for a in _atom(t, True):
+        if a[0] == "eq" and "py:module" in (_cstr(a[1]), _cstr(a[2])) and (_is_name(a[1], typevar) or _is_name(a[2], typevar)):
+            return E == a[3]
+        if a[0] == "in" and "objects" in unparse(a[2]):
+            return P == a[3]
+    raise Unsupported(f"part of the py:module test not understood: {short(t, 50)}")
+
+
+def _mentions(t, names) -> bool:
+    return any(isinstance(n, ast.Name) and n.id in names for n in ast.walk(t))
+
+
+def _store_guard_classes(fi: FunctionInfo, L: "EntryLoop", store) -> list[tuple[str, ast.expr, bool]]:
+    """Classify every branch fact that dominates the entry store: MATCH / COLON / PYDUP / FIELD / OTHER."""
+    cfg = get_cfg(fi)
+    R = L.roles
+    out = []
+    for t, pol in cfg.guards(store):
+        if not any(t is n for st in L.body_stmts if isinstance(st, (ast.If, ast.While)) for n in ast.walk(st.test)):
+            continue  # facts established outside the entry loop (header checks)
+        cls = "OTHER"
+        if isinstance(t, ast.Constant):
+            continue  # constant test: no condition on the entry
+        is_m = lambda e: _is_name(e, L.mvar) or (isinstance(e, ast.NamedExpr) and _is_name(e.target, L.mvar))
+        if is_m(t) and pol:
+            cls = "MATCH"
+        elif isinstance(t, ast.Compare) and len(t.ops) == 1 and is_m(t.left) and _is_none(t.comparators[0]) and isinstance(t.ops[0], (ast.Is, ast.IsNot)) and (isinstance(t.ops[0], ast.IsNot) == pol):
+            cls = "MATCH"
+        elif any(a[0] == "in" and _cstr(a[1]) == ":" and _is_name(a[2], R["type"]) and a[3] for a in _atom(t, pol)):
+            cls = "COLON"
+        elif any(isinstance(n, ast.Constant) and n.value == "py:module" for n in ast.walk(t)):
+            cls = "PYDUP"
+        elif isinstance(t, ast.Name) and t.id in R.values() and pol and L.group_min_width().get(t.id, 0) >= 1:
+            cls = "VACUOUS"  # the regex group cannot be empty: the truthiness test never skips anything
+        elif _mentions(t, set(R.values())):
+            cls = "FIELD"
+        out.append((cls, t, pol))
+    return out
+
+
 @rule("C18.R2")
 def r2_rule_chain(corpus: Corpus, rep: Report, tier: str):
-    rep.rule("C18.R2", "v2 loader: ':' test dominates the split, py:module first-wins skip, '$' expansion, '-'/empty -> None, one store per kept entry")
+    rep.rule("C18.R2", "v2 loader: ':' test dominates the split, py:module first-wins skip, '$' expansion, '-'/empty -> None, Sphinx's skip conditions only, later duplicate overwrites")
     A = _anchors(corpus)
     L = _myst_loop(corpus)
+    S = _sphinx_loop(corpus)
     fi, cfg, mod = L.fi, get_cfg(L.fi), L.fi.module
     R = L.roles
     scope = L.body_stmts
-    stores = [st for st in scope if _objects_store(st) is not None]
+    stores = [st for st in scope if _entry_store(st) is not None]
     if len(stores) != 1:
         raise Unsupported(f"{fi.fq}: expected one store into [\"objects\"][domain][objtype][name], found {len(stores)}")
     store = stores[0]
+    _, item_e, mode = _entry_store(store)
+    item = _item_dict(fi, item_e)
+    if item is None:
+        raise Unsupported(f"{fi.fq}: the stored item is not a dict literal")
     # (a) the ':' test precedes the split (v2 loader and from_sphinx)
     if _check_type_splits(rep, "C18.R2", fi, R["type"], scope) == 0:
         raise Unsupported(f"{fi.fq}: `{R['type']}` is never split into domain and objtype")
@@ -469,92 +660,125 @@ def r2_rule_chain(corpus: Corpus, rep: Report, tier: str):
         raise Unsupported(f"{fs.fq}: `{fs_type}` is never split into domain and objtype")
     # (b) duplicate py:module: first entry wins
     conts = [st for st in scope if isinstance(st, ast.Continue)]
+    guards = _store_guard_classes(fi, L, store)
+    k = f"{fi.fq}|py:module duplicate rule"
     dup = []
     for c in conts:
         at = _atoms(cfg, c)
-        if any(a[0] == "eq" and a[3] and {_cstr(a[1]), _cstr(a[2])} & {"py:module"} and (_is_name(a[1], R["type"]) or _is_name(a[2], R["type"])) for a in at):
-            member = [a for a in at if a[0] == "in" and "objects" in unparse(a[2])]
-            dup.append((c, member))
-    k = f"{fi.fq}|py:module duplicate rule"
-    if not dup:
+        if any(a[0] == "eq" and a[3] and "py:module" in (_cstr(a[1]), _cstr(a[2])) and (_is_name(a[1], R["type"]) or _is_name(a[2], R["type"])) for a in at):
+            dup.append((c, [a for a in at if a[0] == "in" and "objects" in unparse(a[2])]))
+    pyd = [(t, pol) for cls, t, pol in guards if cls == "PYDUP"]
+    if dup:
+        for c, member in dup:
+            if not member:
+                raise Unsupported(f"{fi.fq}: py:module skip without a membership test on the objects table")
+            if all(a[3] for a in member):
+                rep.ok("C18.R2", k, mod.site(c), "skip when already present (key kinds: R3)")
+            else:
+                rep.violation("C18.R2", k, mod.site(c), "the py:module skip is taken when the entry is NOT yet present: the first entry is dropped instead of the duplicate")
+    elif pyd:
+        for t, pol in pyd:
+            # the store runs iff t == pol; required: it runs iff not (type == "py:module" and already present)
+            wrong = [(E, P) for E in (True, False) for P in (True, False) if (_dup_truth(t, R["type"], E, P) == pol) != (not (E and P))]
+            if not wrong:
+                rep.ok("C18.R2", k, mod.site(t), "store skipped exactly when type == 'py:module' and already present")
+            else:
+                rep.violation("C18.R2", k, mod.site(t), f"the guard `{short(t, 60)}` does not skip exactly the already-present py:module entries (wrong for (is py:module, present) = {wrong})")
+    else:
         rep.violation("C18.R2", k, mod.site(L.loop), "no skip path is guarded by `type == \"py:module\"`: of two py:module entries with one name the last wins, Sphinx keeps the first")
-    for c, member in dup:
-        if not member:
-            raise Unsupported(f"{fi.fq}: py:module skip without a membership test on the objects table")
-        if all(a[3] for a in member):
-            rep.ok("C18.R2", k, mod.site(c), "skip when already present (key kinds: R3)")
-        else:
-            rep.violation("C18.R2", k, mod.site(c), "the py:module skip is taken when the entry is NOT yet present: the first entry is dropped instead of the duplicate")
     # (c) '$' expansion reaches the store
     loc, name = R["loc"], R["name"]
-    val = _dict_value(store.value, "loc")
+    val = _dict_value(item, "loc")
     k = f"{fi.fq}|$ expansion"
-    exp = []
-    for st in scope:
-        if isinstance(st, ast.If) and any(a[0] == "endswith" and _is_name(a[1], loc) and _cstr(a[2]) == "$" for t, p in facts(st.test, True) for a in _atom(t, p) if a[3]):
-            exp.append(st)
+
+    def is_dollar_test(t) -> bool:
+        return any(a[0] == "endswith" and _is_name(a[1], loc) and _cstr(a[2]) == "$" and a[3] for tt, p in facts(t, True) for a in _atom(tt, p))
+
+    def is_expansion(v) -> bool:
+        if isinstance(v, ast.BinOp) and isinstance(v.op, ast.Add) and _is_name(v.right, name):
+            l = v.left
+            if isinstance(l, ast.Subscript) and _is_name(l.value, loc) and isinstance(l.slice, ast.Slice) and l.slice.lower is None and l.slice.step is None and unparse(l.slice.upper or ast.Constant(0)) == "-1":
+                return True
+            if isinstance(l, ast.Call) and isinstance(l.func, ast.Attribute) and l.func.attr == "removesuffix" and _is_name(l.func.value, loc) and len(l.args) == 1 and _cstr(l.args[0]) == "$":
+                return True
+        return False
+
     loc_defs = [st for st in scope if isinstance(st, (ast.Assign, ast.AugAssign)) and st is not L.unpack and any(_is_name(n, loc) and isinstance(n.ctx, ast.Store) for n in ast.walk(st))]
     name_defs = [st for st in scope if isinstance(st, (ast.Assign, ast.AugAssign)) and st is not L.unpack and any(_is_name(n, name) and isinstance(n.ctx, ast.Store) for n in ast.walk(st))]
     if val is None:
         raise Unsupported(f"{fi.fq}: stored item has no literal \"loc\" entry")
     if name_defs or not _is_name(val, loc):
         raise Unsupported(f"{fi.fq}: name/location are re-assigned or stored in an unknown way")
-    if not exp:
+    if not loc_defs:
         rep.violation("C18.R2", k, mod.site(store), "no `location.endswith(\"$\")` expansion precedes the store: the '$' shorthand is stored literally")
     else:
-        iff = exp[0]
-        good = None
         for st in loc_defs:
-            if parent(st) is iff and st in iff.body and isinstance(st, ast.Assign):
-                v = st.value
-                if isinstance(v, ast.BinOp) and isinstance(v.op, ast.Add) and _is_name(v.right, name):
-                    l = v.left
-                    if isinstance(l, ast.Subscript) and _is_name(l.value, loc) and isinstance(l.slice, ast.Slice) and l.slice.lower is None and l.slice.step is None and unparse(l.slice.upper or ast.Constant(0)) == "-1":
-                        good = True
-                    elif isinstance(l, ast.Call) and isinstance(l.func, ast.Attribute) and l.func.attr == "removesuffix" and _is_name(l.func.value, loc) and len(l.args) == 1 and _cstr(l.args[0]) == "$":
-                        good = True
-                    else:
-                        good = False
+            p = parent(st)
+            tested = good = None
+            if isinstance(st, ast.Assign) and isinstance(st.value, ast.IfExp) and _is_name(st.value.orelse, loc):
+                tested, good, anchor = is_dollar_test(st.value.test), is_expansion(st.value.body), st  # loc = loc[:-1] + name if loc.endswith("$") else loc
+            elif isinstance(st, ast.Assign) and isinstance(p, ast.If) and st in p.body:
+                tested, good, anchor = is_dollar_test(p.test), is_expansion(st.value), p
+            else:
+                raise Unsupported(f"{fi.fq}: assignment to the location not understood: {short(st, 60)}")
+            if not tested:
+                if isinstance(anchor, ast.If) and anchor.test is not None and isinstance(anchor.test, ast.Constant):
+                    rep.violation("C18.R2", k, mod.site(anchor), "the '$' expansion is disabled: the shorthand is stored literally")
                 else:
-                    good = False
-        others = [st for st in loc_defs if not (parent(st) is iff and st in iff.body)]
-        if others or good is None:
-            raise Unsupported(f"{fi.fq}: assignments to the location not understood")
-        if not good:
-            rep.violation("C18.R2", k, mod.site(iff), "the '$' shorthand is not expanded to `location[:-1] + name` as in Sphinx")
-        elif not cfg.dominates(iff, store):
-            rep.violation("C18.R2", k, mod.site(iff), "the '$' expansion does not precede the store on every path")
-        else:
-            rep.ok("C18.R2", k, mod.site(iff), "location[:-1] + name, before the store")
-    # (d) '-' / empty display name -> None
+                    raise Unsupported(f"{fi.fq}: the location is modified under a test other than endswith('$'): {short(anchor, 60)}")
+            elif not good:
+                rep.violation("C18.R2", k, mod.site(anchor), "the '$' shorthand is not expanded to `location[:-1] + name` as in Sphinx")
+            elif not cfg.dominates(anchor, store):
+                rep.violation("C18.R2", k, mod.site(anchor), "the '$' expansion does not precede the store on every path")
+            else:
+                rep.ok("C18.R2", k, mod.site(anchor), "location[:-1] + name, before the store")
+    # (d) '-' / empty display name -> None, every other display name kept
     sentinel = _sentinel(A)
-    tv = _dict_value(store.value, "text")
+    tv = _dict_value(item, "text")
     if tv is None:
         raise Unsupported(f"{fi.fq}: stored item has no literal \"text\" entry")
-    got = _text_outcomes(fi, tv, store, scope, L.unpack, ["", sentinel, "x"])
+    samples = ["", sentinel, "x"]
+    probs = _text_problems(samples, _text_outcomes(fi, tv, store, scope, L.unpack, samples))
     k = f"{fi.fq}|display name sentinel"
-    if got == [None, None, "x"]:
-        rep.ok("C18.R2", k, mod.site(store), f"'' and {sentinel!r} -> None, anything else kept")
+    if not probs:
+        rep.ok("C18.R2", k, mod.site(store), f"'' and {sentinel!r} -> None, anything else kept ({len(samples)} abstract values)")
     else:
-        rep.violation("C18.R2", k, mod.site(store), f"display names '' / {sentinel!r} / other are stored as {got!r}; the documented item format (and from_sphinx) store None for '' and {sentinel!r}")
-    # (e) one store on every kept path, none on a skip path
-    start = ("T", L.loop)
-    cnt = cfg.counts(start, [L.loop] + conts, lambda n: 1 if n is store else 0)
-    k = f"{fi.fq}|kept entry stored exactly once"
-    if L.loop not in cnt:
-        raise Unsupported(f"{fi.fq}: loop body never falls through")
-    if cnt[L.loop] == {1}:
+        rep.violation("C18.R2", k, mod.site(store), f"display name handling differs from Sphinx/the item format ('' and {sentinel!r} -> None, everything else verbatim): " + "; ".join(probs))
+    # (e) the entry is skipped only under Sphinx's skip conditions, stored at most once, and overwrites
+    s_stores = [st for st in S.body_stmts if _sphinx_store_mode(A, st) is not None]
+    if len(s_stores) != 1:
+        raise Unsupported(f"{SIB}: entry store of {S.fi.qualname} not found")
+    s_classes = {c for c, _, _ in _store_guard_classes(S.fi, S, s_stores[0])}
+    if not s_classes <= {"MATCH", "COLON", "PYDUP"}:
+        raise Unsupported(f"{SIB}: {S.fi.qualname} skips entries under conditions this rule does not know ({sorted(s_classes)})")
+    for cls, t, pol in guards:
+        k = f"{fi.fq}|store guarded by|{'' if pol else 'not '}{short(t, 60)}"
+        if cls == "VACUOUS":
+            rep.ok("C18.R2", k, mod.site(t), "always true: the regex group cannot match the empty string")
+        elif cls in s_classes:
+            rep.ok("C18.R2", k, mod.site(t), f"Sphinx's {cls} condition")
+        elif cls == "FIELD":
+            rep.violation("C18.R2", k, mod.site(t), f"the entry is only stored when `{'' if pol else 'not '}{short(t, 60)}`: Sphinx {A.sphinx_version} keeps every matched entry with a ':' in its type (except duplicate py:module), whatever its fields contain")
+        else:
+            raise Unsupported(f"{fi.fq}: the store is guarded by a condition this rule cannot judge: {short(t, 60)}")
+    cnt = cfg.counts(("T", L.loop), [L.loop] + conts, lambda n: 1 if n is store else 0)
+    k = f"{fi.fq}|entry stored at most once per line"
+    worst = max((max(v) for v in cnt.values()), default=0)
+    reach = store in cfg.reachable_from(("T", L.loop))
+    if not reach:
+        rep.violation("C18.R2", k, mod.site(store), "the store is unreachable from the loop head")
+    elif worst <= 1 and cfg.loops.get(store) is L.loop:
         rep.ok("C18.R2", k, mod.site(store))
     else:
-        rep.violation("C18.R2", k, mod.site(store), f"a path through the loop body that is not a skip stores the entry {sorted(cnt[L.loop])} times: an entry Sphinx keeps is silently dropped (or stored twice)")
-    for c in conts:
-        k = f"{fi.fq}|skip path stores nothing|{short(parent(c).test if isinstance(parent(c), ast.If) else c, 60)}"
-        if cnt.get(c, {0}) == {0}:
-            rep.ok("C18.R2", k, mod.site(c))
-        else:
-            rep.violation("C18.R2", k, mod.site(c), "a skip path has already stored the entry")
+        rep.violation("C18.R2", k, mod.site(store), "an entry can be stored more than once for one line")
+    k = f"{fi.fq}|duplicate entries"
+    s_mode = _sphinx_store_mode(A, s_stores[0])
+    if mode == s_mode:
+        rep.ok("C18.R2", k, mod.site(store), mode)
+    else:
+        rep.violation("C18.R2", k, mod.site(store), f"`{short(store, 70)}`: of two entries with the same type and name {mode}; in Sphinx {A.sphinx_version} {s_mode} (only duplicate py:module entries keep the first)")
     rep.saw_function(fi.fq)
-    rep.expect_min("C18.R2", 9, "2x2 split checks, py:module, $, sentinel, store count, >=3 skip paths")
+    rep.expect_min("C18.R2", 9, "2x2 split checks, py:module, $, sentinel, >=2 store guards, store count, duplicate mode")
 
 
 def _items_key_var(fi: FunctionInfo) -> str:
@@ -1179,9 +1403,151 @@ def _judge_buffer(rep: Report, M: ReaderModel, m: FunctionInfo, b: str) -> None:
                 rep.ok(rid, k, mod.site(a), "tail consumed or known empty on every path to the exit")
 
 
+# -- decode() provenance: bytes are decoded only at entry or stream boundaries ------------------
+
+CHUNK_CALLS = {"read", "decompress", "flush"}  # calls whose result is an arbitrary piece of the byte stream
+
+
+def _chunk_generators(M: "ReaderModel") -> set[str]:
+    """Generator methods of the reader that yield arbitrary pieces of the (decompressed) byte stream."""
+    out = set()
+    for m in M.methods:
+        for n in m.local_nodes():
+            if isinstance(n, (ast.Yield, ast.YieldFrom)) and n.value is not None:
+                if any(isinstance(c, ast.Call) and isinstance(c.func, ast.Attribute) and c.func.attr in CHUNK_CALLS for c in ast.walk(n.value)):
+                    out.add(m.name)
+    return out
+
+
+def _bytes_provenance(e, fi: FunctionInfo, M: "ReaderModel", gens: set[str], at: ast.stmt, depth: int = 0):
+    """('ok'|'chunk', reason) for the bytes expression ``e`` decoded in statement ``at``."""
+    if depth > 5:
+        raise Unsupported(f"{fi.fq}: provenance of decoded bytes too deep")
+    cfg = get_cfg(fi)
+    local_bufs = {nm for m, nm in M.locals if m.fq == fi.fq}
+    in_reader = any(m.fq == fi.fq for m in M.methods)
+    # prefix up to a separator
+    if isinstance(e, ast.Subscript) and isinstance(e.slice, ast.Slice) and e.slice.lower is None and e.slice.step is None and isinstance(e.slice.upper, ast.Name):
+        b = unparse(e.value)
+        if (in_reader and b == M.B) or b in local_bufs:
+            pos = e.slice.upper.id
+            seps = []
+            for d in fi.local_nodes():
+                if isinstance(d, ast.Assign) and any(_is_name(t, pos) for t in d.targets):
+                    v = d.value
+                    if isinstance(v, ast.Call) and isinstance(v.func, ast.Attribute) and v.func.attr == "find" and unparse(v.func.value) == b and len(v.args) == 1 and isinstance(v.args[0], ast.Constant) and isinstance(v.args[0].value, bytes):
+                        seps.append(v.args[0].value)
+                    else:
+                        raise Unsupported(f"{fi.fq}: `{pos}` is not only assigned from {b}.find(<bytes>)")
+            if seps and all(s and max(s) < 0x80 for s in seps):
+                return "ok", f"prefix of {b} up to an ASCII separator"
+            return "chunk", f"prefix of {b} up to a position that is not an ASCII separator"
+        raise Unsupported(f"{fi.fq}: slice `{short(e, 40)}` of unknown bytes")
+    # the whole persistent buffer: only at end of stream
+    if in_reader and unparse(e) == M.B:
+        if any(pol and unparse(t) == M.E for t, pol in cfg.guards(at)):
+            return "ok", f"whole {M.B} at end of stream ({M.E})"
+        return "chunk", f"{M.B} holds whatever the reads delivered so far and {M.E} is not known to be set"
+    if isinstance(e, ast.Name):
+        if e.id in local_bufs:
+            inf = M.info[(fi.fq, e.id)]
+            later = [a for a, i in inf.items() if i.store == "append" and a in cfg.reachable_from(at)]
+            if not later:
+                return "ok", f"`{e.id}` after the last chunk was appended"
+            return "chunk", f"`{e.id}` is decoded while chunks are still being appended to it"
+        binds = []
+        for n in fi.local_nodes():
+            if isinstance(n, (ast.For, ast.comprehension)) and any(_is_name(x, e.id) for x in ast.walk(n.target)):
+                binds.append(("iter", n.iter))
+            elif isinstance(n, ast.Assign) and any(_is_name(t, e.id) for t in n.targets):
+                binds.append(("is", n.value))
+            elif isinstance(n, (ast.AugAssign, ast.AnnAssign, ast.NamedExpr)) and _is_name(n.target, e.id):
+                raise Unsupported(f"{fi.fq}: `{e.id}` is bound in a way the decode rule does not follow")
+        if e.id in fi.params or not binds:
+            raise Unsupported(f"{fi.fq}: origin of the decoded bytes `{e.id}` unknown")
+        res = []
+        for how, src in binds:
+            if how == "is":
+                res.append(_bytes_provenance(src, fi, M, gens, at, depth + 1))
+            else:
+                it = src
+                while isinstance(it, ast.Call) and isinstance(it.func, ast.Name) and it.func.id in ("iter", "list", "tuple", "reversed") and len(it.args) == 1:
+                    it = it.args[0]
+                if isinstance(it, ast.Call) and isinstance(it.func, ast.Attribute) and it.func.attr in gens:
+                    res.append(("chunk", f"`{e.id}` is one item of {it.func.attr}(): an arbitrary piece of the decompressed stream"))
+                else:
+                    raise Unsupported(f"{fi.fq}: `{e.id}` iterates over `{short(src, 40)}`")
+        bad = [r for r in res if r[0] == "chunk"]
+        return bad[0] if bad else res[0]
+    if isinstance(e, ast.Call):
+        f = e.func
+        if isinstance(f, ast.Attribute) and f.attr == "join" and isinstance(f.value, ast.Constant) and isinstance(f.value.value, bytes) and len(e.args) == 1:
+            it = e.args[0]
+            if isinstance(it, (ast.GeneratorExp, ast.ListComp)) and len(it.generators) == 1 and not it.generators[0].ifs and _is_name(it.elt, getattr(it.generators[0].target, "id", "")):
+                it = it.generators[0].iter
+            for _ in range(3):
+                while isinstance(it, ast.Call) and isinstance(it.func, ast.Name) and it.func.id in ("list", "tuple", "iter") and len(it.args) == 1:
+                    it = it.args[0]
+                if isinstance(it, ast.Name):  # chunks = list(gen()); b"".join(chunks)
+                    defs = [n for n in fi.local_nodes() if isinstance(n, ast.Assign) and any(_is_name(t, it.id) for t in n.targets)]
+                    others = [n for n in fi.local_nodes() if isinstance(n, ast.Call) and isinstance(n.func, ast.Attribute) and _is_name(n.func.value, it.id) and n.func.attr in ("append", "extend", "insert", "pop", "remove", "clear")]
+                    if len(defs) == 1 and not others:
+                        it = defs[0].value
+                        continue
+                break
+            if isinstance(it, ast.Call) and isinstance(it.func, ast.Attribute) and it.func.attr in gens:
+                return "ok", f"all items of {it.func.attr}() joined: the complete decompressed body"
+            raise Unsupported(f"{fi.fq}: join over `{short(it, 40)}`")
+        if isinstance(f, ast.Attribute) and f.attr in CHUNK_CALLS:
+            if f.attr == "read" and not e.args and not e.keywords:
+                return "ok", "read() without a size: the rest of the stream"
+            if fi.module.resolve(dotted(f) or "") == "zlib.decompress" and e.args:
+                return _bytes_provenance(e.args[0], fi, M, gens, at, depth + 1)
+            return "chunk", f"`{short(e, 40)}` returns an arbitrary piece of the byte stream"
+        if isinstance(f, ast.Attribute) and f.attr in gens or (isinstance(f, ast.Name) and f.id == "next"):
+            return "chunk", f"`{short(e, 40)}` is one chunk"
+    raise Unsupported(f"{fi.fq}: origin of the decoded bytes `{short(e, 50)}` not understood")
+
+
+def _judge_decodes(rep: Report, M: "ReaderModel", funcs: list[FunctionInfo]) -> int:
+    rid = "C18.R4"
+    gens = _chunk_generators(M)
+    n = 0
+    for fi in funcs:
+        cfg = get_cfg(fi)
+        for c in fi.local_nodes():
+            if not isinstance(c, ast.Call):
+                continue
+            recv = None
+            if isinstance(c.func, ast.Attribute) and c.func.attr == "decode":
+                recv = c.func.value
+                if isinstance(recv, ast.Name):
+                    # an incremental decoder keeps the undecoded tail itself: decoder.decode(chunk) is chunk-safe
+                    defs = [d for d in fi.local_nodes() if isinstance(d, ast.Assign) and any(_is_name(t, recv.id) for t in d.targets)]
+                    if defs and all("incrementaldecoder" in unparse(d.value).lower() for d in defs):
+                        n += 1
+                        rep.ok(rid, f"{fi.fq}|decode|{short(c, 50)}", fi.module.site(c), "incremental decoder")
+                        continue
+            elif isinstance(c.func, ast.Name) and c.func.id == "str" and len(c.args) + len(c.keywords) >= 2 and c.args:
+                recv = c.args[0]
+            elif fi.module.resolve(dotted(c.func) or "") == "codecs.decode" and c.args:
+                recv = c.args[0]
+            if recv is None:
+                continue
+            n += 1
+            at = cfg.stmt_of(c)
+            verdict, why = _bytes_provenance(recv, fi, M, gens, at)
+            k = f"{fi.fq}|decode|{short(recv, 50)}"
+            if verdict == "ok":
+                rep.ok(rid, k, fi.module.site(c), why)
+            else:
+                rep.violation(rid, k, fi.module.site(c), f"`{short(c, 50)}` decodes bytes that can end inside a multi-byte character: {why}. With a read()/decompress boundary inside a UTF-8 sequence the load raises UnicodeDecodeError although the same bytes load in one read")
+    return n
+
+
 @rule("C18.R4")
 def r4_buffer_conservation(corpus: Corpus, rep: Report, tier: str):
-    rep.rule("C18.R4", "reader buffers: stores are append / consumed-prefix drop / consumed reset; consumed bytes discarded once; no tail left at exit; eof only on b''; every chunk appended")
+    rep.rule("C18.R4", "reader buffers: stores are append / consumed-prefix drop / consumed reset; consumed bytes discarded once; no tail left at exit; decode() only at entry/stream boundaries; eof only on b''; every chunk appended")
     M = _reader(corpus)
     rid = "C18.R4"
     for m in M.methods:
@@ -1189,6 +1555,10 @@ def r4_buffer_conservation(corpus: Corpus, rep: Report, tier: str):
         _judge_buffer(rep, M, m, M.B)
     for m, nm in M.locals:
         _judge_buffer(rep, M, m, nm)
+    # decode() only at entry / stream boundaries
+    A = _anchors(corpus)
+    if _judge_decodes(rep, M, M.methods + [A.load, A.v1, A.v2]) < 1:
+        raise Unsupported(f"{M.ci.fq}: no decode() of the byte stream found")
     # reads and the eof flag
     n_reads = 0
     for m in M.methods:
@@ -1289,19 +1659,20 @@ def _sym_show(parts) -> str:
     return "".join(v if k == "c" else "{" + v + "}" for k, v in parts) or "''"
 
 
-def _sym_store(st, env, mod, sentinel):
-    """(type, name, loc, text) when ``st`` stores one v1 entry (MyST or Sphinx shape), else None."""
+def _sym_store(st, env, mod, sentinel, A):
+    """(type, name, loc, text, duplicate mode) when ``st`` stores one v1 entry (MyST or Sphinx shape), else None."""
+    es = _entry_store(st)
+    if es is not None and isinstance(es[1], ast.Dict) and _dict_value(es[1], "loc") is not None:  # MyST
+        keys, item, mode = es
+        typ = _sym_eval(keys[0], env, mod) + (("c", ":"),) + _sym_eval(keys[1], env, mod)
+        name = _sym_eval(keys[2], env, mod)
+        loc = _sym_eval(_dict_value(item, "loc"), env, mod)
+        tv = _dict_value(item, "text")
+        text = None if _is_none(tv) else _sym_norm(_sym_eval(tv, env, mod))
+        return _sym_norm(typ), _sym_norm(name), _sym_norm(loc), text, mode
     if not (isinstance(st, ast.Assign) and len(st.targets) == 1 and isinstance(st.targets[0], ast.Subscript)):
         return None
     t = st.targets[0]
-    keys = _objects_store(st)
-    if keys is not None and isinstance(st.value, ast.Dict):  # MyST
-        typ = _sym_eval(keys[0], env, mod) + (("c", ":"),) + _sym_eval(keys[1], env, mod)
-        name = _sym_eval(keys[2], env, mod)
-        loc = _sym_eval(_dict_value(st.value, "loc"), env, mod)
-        tv = _dict_value(st.value, "text")
-        text = None if _is_none(tv) else _sym_norm(_sym_eval(tv, env, mod))
-        return _sym_norm(typ), _sym_norm(name), _sym_norm(loc), text
     typ_e = name_e = None
     if isinstance(t.slice, ast.Tuple) and len(t.slice.elts) == 2:  # inv[type, name] = ...
         typ_e, name_e = t.slice.elts
@@ -1319,14 +1690,14 @@ def _sym_store(st, env, mod, sentinel):
     text = _sym_norm(_sym_eval(text_e, env, mod))
     if text == (("c", sentinel),):
         text = None
-    return _sym_norm(_sym_eval(typ_e, env, mod)), _sym_norm(_sym_eval(name_e, env, mod)), _sym_norm(_sym_eval(loc_e, env, mod)), text
+    return _sym_norm(_sym_eval(typ_e, env, mod)), _sym_norm(_sym_eval(name_e, env, mod)), _sym_norm(_sym_eval(loc_e, env, mod)), text, _sphinx_store_mode(A, st)
 
 
-def _sym_exec(stmts, env, conds, out, mod, sentinel, skip) -> None:
+def _sym_exec(stmts, env, conds, out, mod, sentinel, skip, A) -> None:
     for i, st in enumerate(stmts):
         if st is skip:
             continue
-        rec = _sym_store(st, env, mod, sentinel)
+        rec = _sym_store(st, env, mod, sentinel, A)
         if rec is not None:
             out.setdefault(frozenset(conds), []).append(rec)
         elif isinstance(st, ast.Assign) and len(st.targets) == 1 and isinstance(st.targets[0], ast.Name):
@@ -1341,8 +1712,8 @@ def _sym_exec(stmts, env, conds, out, mod, sentinel, skip) -> None:
             if len(val) != 1 or val[0][0] != "v":
                 raise Unsupported(f"v1 loop: test on a derived value: {short(st.test, 50)}")
             rest = list(stmts[i + 1 :])
-            _sym_exec(list(st.body) + rest, dict(env), conds + [(val[0][1], ec[1], True)], out, mod, sentinel, skip)
-            _sym_exec(list(st.orelse) + rest, dict(env), conds + [(val[0][1], ec[1], False)], out, mod, sentinel, skip)
+            _sym_exec(list(st.body) + rest, dict(env), conds + [(val[0][1], ec[1], True)], out, mod, sentinel, skip, A)
+            _sym_exec(list(st.orelse) + rest, dict(env), conds + [(val[0][1], ec[1], False)], out, mod, sentinel, skip, A)
             return
         elif isinstance(st, ast.Expr) and isinstance(st.value, ast.Call) and isinstance(st.value.func, ast.Attribute) and st.value.func.attr == "setdefault":
             continue  # creates the nested dictionaries; key kinds are judged by R3
@@ -1352,7 +1723,7 @@ def _sym_exec(stmts, env, conds, out, mod, sentinel, skip) -> None:
             raise Unsupported(f"v1 loop: statement not understood: {short(st, 60)}")
 
 
-def _v1_table(fi: FunctionInfo, sentinel: str):
+def _v1_table(fi: FunctionInfo, sentinel: str, A):
     un = _v1_unpack(fi)
     loop = _enclosing_for(un)
     if loop is None or un not in loop.body:
@@ -1363,7 +1734,7 @@ def _v1_table(fi: FunctionInfo, sentinel: str):
     roles = ["NAME", "ITEMTYPE", "LOCATION"]
     env = {e.id: (("v", r),) for e, r in zip(un.targets[0].elts, roles)}
     out: dict = {}
-    _sym_exec(list(loop.body), env, [], out, fi.module, sentinel, un)
+    _sym_exec(list(loop.body), env, [], out, fi.module, sentinel, un, A)
     return chain, out, loop
 
 
@@ -1458,8 +1829,8 @@ def r5_constants(corpus: Corpus, rep: Report, tier: str):
         else:
             rep.violation(rid, k, mf.site(), f"project name / version are cut at offsets {mo}, Sphinx {ver} cuts at {so}")
     # (3) v1 entry templates
-    mchain, mtab, mloop = _v1_table(A.v1, sentinel)
-    schain, stab, _ = _v1_table(A.s_v1, sentinel)
+    mchain, mtab, mloop = _v1_table(A.v1, sentinel, A)
+    schain, stab, _ = _v1_table(A.s_v1, sentinel, A)
     k = f"{A.v1.fq}|v1 entry split"
     if mchain == schain:
         rep.ok(rid, k, A.v1.module.site(mloop), "line" + "".join(f".{a}({', '.join(b)})" for a, b in mchain))
@@ -1469,7 +1840,7 @@ def r5_constants(corpus: Corpus, rep: Report, tier: str):
         cs = " and ".join(f"{r} {'==' if p else '!='} {c!r}" for r, c, p in sorted(conds)) or "always"
         k = f"{A.v1.fq}|v1 entry where {cs}"
         m_, s_ = mtab.get(conds), stab.get(conds)
-        show = lambda recs: "; ".join(f"type={_sym_show(t)} name={_sym_show(n)} loc={_sym_show(l)} text={_sym_show(x)}" for t, n, l, x in recs) if recs else "no store"
+        show = lambda recs: "; ".join(f"type={_sym_show(t)} name={_sym_show(n)} loc={_sym_show(l)} text={_sym_show(x)} ({md})" for t, n, l, x, md in recs) if recs else "no store"
         if m_ == s_ and m_ is not None and len(m_) == 1:
             rep.ok(rid, k, A.v1.module.site(mloop), show(m_))
         else:
@@ -1486,19 +1857,22 @@ def r5_constants(corpus: Corpus, rep: Report, tier: str):
             rep.violation(rid, k, L.fi.site(), f"{what} use {_show_set(mc[what])}, Sphinx {ver} uses {_show_set(sc[what])}")
     # (5) the display-name sentinel: to_sphinx writes it, from_sphinx and Sphinx's v1 loader agree
     fs = A.from_sphinx
-    fstores = [st for st in fs.local_nodes() if _objects_store_any(st)]
-    if len(fstores) != 1 or _dict_value(fstores[0].value, "text") is None:
+    fstores = [st for st in fs.local_nodes() if isinstance(st, ast.stmt) and _objects_store_any(st)]
+    fitem = _item_dict(fs, _entry_store(fstores[0], rooted=False)[1]) if len(fstores) == 1 else None
+    if fitem is None or _dict_value(fitem, "text") is None:
         raise Unsupported(f"{fs.fq}: item store not understood")
-    got = _text_outcomes(fs, _dict_value(fstores[0].value, "text"), fstores[0], set(), None, ["", sentinel, "x"])
+    samples = ["", sentinel, "x"]
+    fscope = {n for n in fs.local_nodes() if isinstance(n, ast.stmt)}
+    probs = _text_problems(samples, _text_outcomes(fs, _dict_value(fitem, "text"), fstores[0], fscope, None, samples))
     k = f"{fs.fq}|display name sentinel"
-    if got == [None, None, "x"]:
-        rep.ok(rid, k, fs.module.site(fstores[0]), f"'' and {sentinel!r} -> None (to_sphinx writes {sentinel!r} for None)")
+    if not probs:
+        rep.ok(rid, k, fs.module.site(fstores[0]), f"'' and {sentinel!r} -> None, everything else kept (to_sphinx writes {sentinel!r} for None; {len(samples)} abstract values)")
     else:
-        rep.violation(rid, k, fs.module.site(fstores[0]), f"from_sphinx maps display names '' / {sentinel!r} / other to {got!r} but to_sphinx writes {sentinel!r} for None: the round trip is not lossless")
+        rep.violation(rid, k, fs.module.site(fstores[0]), f"from_sphinx(to_sphinx(inv)) != inv: to_sphinx writes {sentinel!r} only for None, but in from_sphinx " + "; ".join(probs))
     s_sent = set()
     for recs in stab.values():
-        for _, _, _, x in recs:
-            s_sent.add(x)
+        for rec in recs:
+            s_sent.add(rec[3])
     k = f"{A.to_sphinx.fq}|sentinel equals Sphinx's"
     if s_sent == {None}:
         rep.ok(rid, k, A.to_sphinx.site(), repr(sentinel))
@@ -1547,10 +1921,14 @@ def r5_constants(corpus: Corpus, rep: Report, tier: str):
 
 
 def _objects_store_any(st) -> bool:
-    """``X[d][o][n] = {...loc/text...}`` (root may be a local table rather than rec["objects"])."""
-    if isinstance(st, ast.Assign) and len(st.targets) == 1 and isinstance(st.targets[0], ast.Subscript) and isinstance(st.value, ast.Dict):
-        return _dict_value(st.value, "loc") is not None and len(_sub_chain(st.targets[0])[1]) >= 3
-    return False
+    """a store of one item at [d][o][n] (root may be a local table rather than rec["objects"])."""
+    es = _entry_store(st, rooted=False)
+    if es is None:
+        return False
+    item = es[1]
+    if isinstance(item, ast.Dict):
+        return _dict_value(item, "loc") is not None
+    return isinstance(item, ast.Name)
 
 
 RULES = [r1_regex_equals_sphinx, r2_rule_chain, r3_key_kinds, r4_buffer_conservation, r5_constants]
@@ -1603,9 +1981,21 @@ def mutants(corpus: Corpus):
     store = find_node(v2, lambda n: _objects_store(n) is not None and n in L.body_stmts)
     if store is not None:
         ind = " " * store.col_offset
-        add("c18-store-only-with-location", "C18.R2", store, f"if {R['loc']}:\n{ind}    " + ast.get_source_segment(src, store), "stored exactly once")
+        add("c18-store-only-with-location", "C18.R2", store, f"if {R['loc']}:\n{ind}    " + ast.get_source_segment(src, store), "store guarded by")
+        es = _entry_store(store)
+        if isinstance(store, ast.Assign) and es is not None:
+            tgt = store.targets[0]
+            add("c18-store-via-setdefault-first-wins", "C18.R2", store, f"{ast.get_source_segment(src, tgt.value)}.setdefault({unparse(tgt.slice)}, {ast.get_source_segment(src, store.value)})", "duplicate entries")
+    v1store = find_node(v1, lambda n: isinstance(n, ast.Assign) and _entry_store(n) is not None)
+    if v1store is not None:
+        tgt = v1store.targets[0]
+        add("c18-v1-store-via-setdefault-first-wins", "C18.R5", v1store, f"{ast.get_source_segment(src, tgt.value)}.setdefault({unparse(tgt.slice)}, {ast.get_source_segment(src, v1store.value)})", "v1 entry where")
+    else:
+        out.append(("c18-v1-store-via-setdefault-first-wins", "v1 store is not a subscript assignment"))
+    if tx_if is not None:
+        add("c18-load-v2-text-equal-to-name-dropped", "C18.R2", tx_if.test, f"not {R['text']} or {R['text']} in (\"-\", {R['name']})", "display name sentinel")
     # --- R3
-    if store is not None:
+    if isinstance(store, ast.Assign):
         keys = _objects_store(store)
         seg = ast.get_source_segment(src, store.targets[0])
         add("c18-store-keys-swapped", "C18.R3", store.targets[0], f"{unparse(_sub_chain(store.targets[0])[0])}[\"objects\"][{unparse(keys[1])}][{unparse(keys[0])}][{unparse(keys[2])}]", "_load_v2")
@@ -1637,17 +2027,46 @@ def mutants(corpus: Corpus):
     rcl = rd.methods.get("read_compressed_lines")
     rcc = rd.methods.get("read_compressed_chunks")
     rl = rd.methods.get("readline")
+    def add2(mid, rid, edits, expect="", canary=False):
+        """several node replacements in one mutant (applied back to front)."""
+        if any(n is None for n, _ in edits):
+            out.append((mid, "construct not found on this tree"))
+            return
+        text = src
+        for node, new in sorted(edits, key=lambda e: (e[0].lineno, e[0].col_offset), reverse=True):
+            text = splice(text, node, new)
+        out.append(Mutant(mid, rid, rel, text, expect=expect, canary=canary))
+
     if rcl is not None:
-        ap = find_node(rcl, lambda n: isinstance(n, ast.AugAssign) and isinstance(n.target, ast.Name))
-        if ap is not None:
-            add("c18-line-buffer-overwritten-by-chunk", "C18.R4", ap, f"{ap.target.id} = {unparse(ap.value)}", "replaces", canary=True)
-        # F21 reverted: the flush of the tail after the loop
-        loop = find_node(rcl, lambda n: isinstance(n, ast.For))
-        tail = [st for st in rcl.node.body if loop is not None and st.lineno > loop.end_lineno]
-        if tail:
-            add("c18-f21-tail-flush-reverted", "C18.R4", tail[0], "pass" if len(tail) == 1 else "pass", "unconsumed tail at exit")
+        ind = " " * rcl.node.body[0].col_offset
+        gens = _chunk_generators(_reader(corpus))
+        gcall = find_node(rcl, lambda n: isinstance(n, ast.Call) and isinstance(n.func, ast.Attribute) and n.func.attr in gens)
+        join = find_node(rcl, lambda n: isinstance(n, ast.Assign) and isinstance(n.value, ast.Call) and isinstance(n.value.func, ast.Attribute) and n.value.func.attr == "join")
+        dec = find_node(rcl, lambda n: isinstance(n, ast.Call) and isinstance(n.func, ast.Attribute) and n.func.attr == "decode")
+        ylines = find_node(rcl, lambda n: isinstance(n, ast.Expr) and isinstance(n.value, (ast.Yield, ast.YieldFrom)))
+        if join is not None and gcall is not None and dec is not None and ylines is not None and isinstance(dec.func.value, ast.Name):
+            g = unparse(gcall)
+            var = dec.func.value.id
+            old_loop = (
+                f'buf = b""\n{ind}for chunk in {g}:\n{ind}    buf += chunk\n{ind}    pos = buf.find(b"\\n")\n'
+                f'{ind}    while pos != -1:\n{ind}        yield buf[:pos].decode()\n{ind}        buf = buf[pos + 1 :]\n{ind}        pos = buf.find(b"\\n")'
+            )
+            # 407f3b2 reverted (F21 + line boundaries): the find/slice loop without a flush of the tail
+            add2("c18-f21-tail-flush-reverted", "C18.R4", [(join, old_loop), (ylines, "pass")], "unconsumed tail at exit", canary=True)
+            add2("c18-v2-lines-cut-at-newline-only-reverted", "C18.R5", [(join, old_loop), (ylines, "pass")], "v2 entry line boundaries")
+            # class "decode applied to an arbitrary byte chunk"
+            add2("c18-decode-per-chunk-then-join", "C18.R4", [(join.value, f'"".join(c.decode() for c in {g})'), (dec, var)], "decode|c")
+            add2("c18-decode-and-split-per-chunk", "C18.R4", [(join, f"for chunk in {g}:\n{ind}    yield from chunk.decode().splitlines()"), (ylines, "pass")], "decode|chunk")
+            add2("c18-line-buffer-decoded-while-filling", "C18.R4", [(join, f'{var} = b""\n{ind}for chunk in {g}:\n{ind}    {var} += chunk\n{ind}    if len({var}) > _BUFSIZE:\n{ind}        yield from {var}.decode().splitlines()\n{ind}        {var} = b""')], "still being appended")
         else:
-            out.append(("c18-f21-tail-flush-reverted", "F21 is not repaired on this tree (nothing follows the chunk loop)"))
+            out.append(("c18-f21-tail-flush-reverted", "read_compressed_lines no longer joins and decodes the chunks once"))
+    rls = rd.methods.get("readlines")
+    if rls is not None:
+        yf = find_node(rls, lambda n: isinstance(n, ast.YieldFrom) and isinstance(n.value, ast.Call) and isinstance(n.value.func, ast.Attribute) and n.value.func.attr == "splitlines")
+        add("c18-v1-lines-cut-at-newline-only-reverted", "C18.R5", yf, f"yield {unparse(yf.value.func.value)}" if yf is not None else "", "v1 entry line boundaries")
+    if rl is not None:
+        eof_t = find_node(rl, lambda n: isinstance(n, ast.If) and unparse(n.test) == _reader(corpus).E)
+        add("c18-readline-decodes-partial-buffer", "C18.R4", eof_t.test if eof_t else None, f"{_reader(corpus).E} or len({_reader(corpus).B}) >= _BUFSIZE", "is not known to be set")
     if rcc is not None:
         rs = find_node(rcc, lambda n: isinstance(n, ast.Assign) and _empty_bytes(n.value))
         add("c18-chunk-buffer-not-cleared", "C18.R4", rs, "pass", "processed twice")
@@ -1678,5 +2097,11 @@ def mutants(corpus: Corpus):
     ife = find_node(fs, lambda n: isinstance(n, ast.IfExp))
     if ife is not None:
         tv = sorted({n.id for n in ast.walk(ife.test) if isinstance(n, ast.Name)})
-        add("c18-from-sphinx-sentinel-not-mapped", "C18.R5", ife.test, f"not {tv[0]}", "display name sentinel")
+        tvar = [b.id for b in (ife.body, ife.orelse) if isinstance(b, ast.Name)][0]
+        add("c18-from-sphinx-sentinel-not-mapped", "C18.R5", ife.test, f"not {tvar}", "display name sentinel")
+        fst2 = find_node(fs, lambda n: isinstance(n, ast.stmt) and _objects_store_any(n))
+        nm = unparse(_entry_store(fst2, rooted=False)[0][2]) if fst2 is not None else None
+        if nm is not None:
+            add("c18-from-sphinx-text-equal-to-name-dropped", "C18.R5", ife.test, f"not {tvar} or {tvar} in (\"-\", {nm})", "equal to")
+            add("c18-from-sphinx-text-equal-to-name-dropped-eq", "C18.R5", ife.test, f"not {tvar} or {tvar} == \"-\" or {tvar} == {nm}", "equal to")
     return out
